@@ -77,6 +77,8 @@ package httpgrpc
 //
 //@ func asTrailerProto
 //@   ensures[C03] result != nil && fresh(result)
+//@   loop loop#1 invariant[C03] visited_keys_copied_others_absent: result != nil && fresh(result) && (forall k string :: (iter_visited(k) ==> has(result, k) && result[k] != nil && len(result[k].Values) == len(md[k])) && (!iter_visited(k) ==> !has(result, k)) && (iter_visited(k) ==> has(md, k)))
+//@   ensures[C03] exactly_the_handlers_keys_with_as_many_values: forall k string :: has(result, k) == has(md, k) && (has(md, k) ==> result[k] != nil && len(result[k].Values) == len(md[k]))
 //@   modifies nothing
 //
 //@ func readSizePreface
@@ -115,6 +117,44 @@ package httpgrpc
 //@   assert_call[C01,C07] readProtoMessage : decodes_into_m: arg0 == sbody(s) && arg1 == s.codec && arg3 == m
 //@   modifies s.recvd, rd_pos(sbody(s)), external
 
+// ---- toHeaders (C03): every value of every non-reserved key is added (never set),
+// under prefix+key, base64url-encoded exactly for "-bin" keys ----
+//
+//@ func toHeaders
+//@   assert_call[C03] (http.Header).Add : into_the_given_header_under_the_prefixed_key: arg0 == h && arg1 == prefix + k
+//@   assert_call[C03] (http.Header).Add : reserved_keys_are_never_written: !has(reservedHeaders, str_lower(k))
+//@   assert_call[C03] (http.Header).Add : binary_values_base64url_others_verbatim: (has_suffix(str_lower(k), "-bin") ==> arg2 == b64url(vs[rangeindex])) && (!has_suffix(str_lower(k), "-bin") ==> arg2 == vs[rangeindex])
+//@   modifies mapof(h), external
+//
+// ---- serverStream writer side (C03, C01, C05) ----
+//
+//@ type serverStream
+//@   guarded_by wmu : headersSent, writeFailed, tr
+//
+//@ func (*serverStream).setHeader
+//@   locks_only[C05] &s.wmu
+//@   ensures[C03] headers_after_they_were_sent_are_refused: at_lock(s.headersSent) ==> result != nil && !called(toHeaders) && !called("http.ResponseWriter.WriteHeader") && s.headersSent
+//@   ensures[C03] otherwise_added_to_the_reply_headers: !at_lock(s.headersSent) ==> result == nil && calls(toHeaders) == 1
+//@   assert_call[C03] toHeaders : into_the_reply_headers_unprefixed: arg0 == md && arg1 == lastresult("http.ResponseWriter.Header") && arg2 == ""
+//@   ensures[C03] send_marks_headers_sent: send && !at_lock(s.headersSent) ==> s.headersSent && calls("http.ResponseWriter.WriteHeader") == 1
+//@   ensures[C03] plain_set_sends_nothing: !send ==> !called("http.ResponseWriter.WriteHeader") && s.headersSent == at_lock(s.headersSent)
+//@   modifies s.headersSent, external, maps("http.Header")
+//
+//@ func (*serverStream).SetTrailer
+//@   locks_only[C05] &s.wmu
+//@   ensures[C03] appended_after_the_earlier_ones: len(s.tr) == at_lock(len(s.tr)) + 1 && s.tr[len(s.tr) - 1] == md
+//@   ensures[C03] earlier_trailers_kept: forall i int :: 0 <= i && i < at_lock(len(s.tr)) ==> s.tr[i] == at_lock(s.tr[i])
+//@   modifies s.tr, mem("metadata.MD")
+//
+//@ func (*serverStream).SendMsg
+//@   locks_only[C05] &s.wmu
+//@   ensures[C05] after_a_failed_write_sends_report_eof_and_write_nothing: at_lock(s.writeFailed) ==> result == io.EOF && !called(writeProtoMessage)
+//@   assert_call[C01] writeProtoMessage : one_data_frame_of_the_message: arg0 == s.w && arg1 == s.codec && arg2 == m && !arg3 && s.headersSent
+//@   ensures[C01] at_most_one_frame_per_send: calls(writeProtoMessage) <= 1
+//@   ensures[C02,C11] a_failed_write_is_remembered_and_returned: called(writeProtoMessage) ==> result == lastresult(writeProtoMessage) && (s.writeFailed <==> result != nil)
+//@   ensures[C03] headers_count_as_sent_after_the_first_message: !at_lock(s.writeFailed) ==> s.headersSent
+//@   modifies s.headersSent, s.writeFailed, external
+
 // ---- client.go helpers ----
 //
 //@ func statusFromContextError
@@ -126,6 +166,8 @@ package httpgrpc
 //
 //@ func metadataFromProto
 //@   ensures[C03] result != nil && fresh(result)
+//@   loop loop#1 invariant[C03] visited_keys_copied_others_absent: md != nil && fresh(md) && (forall k string :: (iter_visited(k) ==> has(md, k) && md[k] == trailers[k].Values) && (!iter_visited(k) ==> !has(md, k)) && (iter_visited(k) ==> has(trailers, k)))
+//@   ensures[C03] exactly_the_received_keys_with_their_values: forall k string :: has(result, k) == has(trailers, k) && (has(trailers, k) ==> result[k] == trailers[k].Values)
 //@   modifies nothing
 //
 //@ func getPeer
@@ -137,7 +179,20 @@ package httpgrpc
 //@ func asMetadata
 //@   ensures[C03] result1 == nil ==> result0 != nil && fresh(result0)
 //@   ensures[C03] result1 != nil ==> result0 == nil
+//@   assert_call[C03] (*base64.Encoding).DecodeString : only_binary_keys_are_decoded_with_the_url_alphabet: arg0 == base64.URLEncoding && arg1 == vs[rangeindex] && has_suffix(k, "-bin")
+//@   assert_call[C03] strings.ToLower : keys_are_lower_cased: true
+//@   ensures[C03] an_undecodable_binary_value_is_the_only_error: result1 != nil ==> called("(*base64.Encoding).DecodeString") && result1 == lastresult("(*base64.Encoding).DecodeString", 1)
 //@   modifies nothing
+//
+// setMetadata: reply headers -> header metadata and (x-grpc-trailer- prefixed keys) trailer
+// metadata, handed to every call option; a decoding error sets nothing.
+//@ func setMetadata
+//@   assert_call[C03] asMetadata : of_the_reply_headers: arg0 == h
+//@   ensures[C03] decoding_error_sets_nothing: lastresult(asMetadata, 1) != nil ==> result == lastresult(asMetadata, 1) && !called("(*internal.CallOptions).SetHeaders") && !called("(*internal.CallOptions).SetTrailers")
+//@   ensures[C03] otherwise_headers_and_trailers_are_set_once: lastresult(asMetadata, 1) == nil ==> result == nil && calls("(*internal.CallOptions).SetHeaders") == 1 && calls("(*internal.CallOptions).SetTrailers") == 1
+//@   assert_call[C03] (*internal.CallOptions).SetHeaders : the_decoded_headers: arg0 == copts && arg1 == lastresult(asMetadata, 0)
+//@   assert_call[C03] (*internal.CallOptions).SetTrailers : the_collected_trailers: arg0 == copts && arg1 == tlr && tlr != nil
+//@   modifies external, maps("metadata.MD"), mem("metadata.MD")
 //
 // statFromResponse: the X-GRPC-Status header, when present and parseable, decides
 // the code (and message) whatever the HTTP status says; otherwise the HTTP status
